@@ -176,6 +176,7 @@ func c02Backing(p *core.Program, r *core.Report) {
 			h := &hmapType{p: p, r: r, pre: "C02.backing", t: nt, name: "util/hmap." + nt.Obj().Name(), linked: true, hasMax: structHasField(nt, "max"), modes: modes}
 			h.checkInsertHelpers()
 			h.checkRemove()
+			h.checkMoves()
 			h.checkRehash()
 			h.checkWalks()
 			h.checkEnumer()
